@@ -338,3 +338,10 @@ func verifLemmaBitStringRoundTrip(b BitString) (r BitString, err error) {
 	e.Encode(dst)
 	return parseBitString(dst)
 }
+
+// BerMarshalWithParams walks its argument by reflection (not yet under contract): callers rely only
+// on "error, or the encoding of val"; that it does not panic on CHF-built records is an assumption
+// of C11, stated in the evidence.
+// @ func BerMarshalWithParams [C03 C11]
+// @   trusted
+// @   ensures result1 != nil ==> len(result0) == 0
